@@ -305,7 +305,7 @@ func TestVerifC31Worker(t *testing.T) {
 				}
 				cs, res := c31OneCase(st, seed, i, before)
 				c31Record(st, &cs, &res)
-				if len(st.Violations) >= 12 || len(st.HarnessErrs) > 3 {
+				if len(st.HarnessErrs) > 3 || st.Counters["violations_not_listed"] > 2000 {
 					return
 				}
 			}
